@@ -229,7 +229,13 @@ def _worker_block(args):
             if k in double and not res["harness_error"]:
                 res2 = run_trace(engine, trace, focus)
                 if res2["digest"] != res["digest"]:
-                    if getattr(engine, "NONDETERMINISM_IS_VIOLATION", None) and focus in engine.NONDETERMINISM_IS_VIOLATION:
+                    mine = [v for v in res["violations"] + res2["violations"] if v["property"] == focus]
+                    if mine:
+                        # a run that violates the property may legitimately differ between executions (e.g. an
+                        # order-dependent discovery): report the violation, not the harness
+                        if not any(v["property"] == focus for v in res["violations"]):
+                            res["violations"] = res2["violations"]
+                    elif getattr(engine, "NONDETERMINISM_IS_VIOLATION", None) and focus in engine.NONDETERMINISM_IS_VIOLATION:
                         res["violations"].append({"property": focus, "clause": "nondeterministic-repeat",
                                                   "msg": "two executions of one trace gave different event digests",
                                                   "op": -1, "key": ""})
